@@ -521,6 +521,20 @@ func c20Run(c *ev.Ctx) {
 				}
 			}
 		}
+		// NaN inputs whose payload lies entirely in the bits the format drops (the kept mantissa
+		// bits are zero): every 16-bit pattern of the low bits, both signs, plus 65536 sampled
+		// patterns of the full dropped field for the 8-bit formats. NaN must stay NaN.
+		keep := uint(23) - f.mbits // dropped low bits
+		for lo := uint32(1); lo < 1<<16; lo++ {
+			for _, sign := range []uint32{0, 0x80000000} {
+				c20One(c, f, sign|0x7f800000|lo)
+				n++
+				if keep > 16 {
+					c20One(c, f, sign|0x7f800000|(uint32(c.R.Intn(1<<(keep-16)))<<16)|lo)
+					n++
+				}
+			}
+		}
 		c.Evals(n)
 		c.Count("neighbours+midpoints:"+f.name, n)
 		if f.name == "E4M3" {
@@ -559,7 +573,7 @@ func c20Run(c *ev.Ctx) {
 var C20 = &ev.Property{
 	ID:    "C20",
 	Level: "exploration",
-	Rule: "every shard process first converts from 48 goroutines at once (its very first conversions: every code of the three formats decoded and re-encoded against the reference), and case 0 starts 8 (thorough 40) fresh worker processes built with -race that do the same, so that shared state behind the conversions is reported by the race detector whatever the timing; case 0-2: every code of E4M3/E5M2/bfloat16 (decode exactness, code->float32->code, byte codec) plus the float32 neighbours (±1..3 ulp and ± every single low bit 2^k ulp, k=2..22, both signs) of every representable value, every midpoint between adjacent representable values and the overflow band; " +
+	Rule: "every shard process first converts from 48 goroutines at once (its very first conversions: every code of the three formats decoded and re-encoded against the reference), and case 0 starts 8 (thorough 40) fresh worker processes built with -race that do the same, so that shared state behind the conversions is reported by the race detector whatever the timing; case 0-2: every code of E4M3/E5M2/bfloat16 (decode exactness, code->float32->code, byte codec) plus the float32 neighbours (±1..3 ulp and ± every single low bit 2^k ulp, k=2..22, both signs) of every representable value, every midpoint between adjacent representable values and the overflow band, and every NaN whose payload lies only in the low 16 of the dropped mantissa bits; " +
 		"cases 3-258: per float32 exponent field 4096 mantissa strata × both signs (incl. all NaN payload strata); thorough adds 4096 blocks of 2^20 consecutive bit patterns = all 2^32 float32 values per format with a monotonicity sweep. " +
 		"distinct_nontrivial counts distinct (by construction) codes + float32 bit patterns evaluated per format; every input is non-trivial (each is a conversion with an exact reference answer).",
 	Assumptions: []string{
